@@ -457,9 +457,12 @@ func c14Quote(s string) string { return kit.Trunc(fmt.Sprintf("%+q", s), 120) }
 func (d *c14Doc) retext(rng *kit.Rand, p *c14Pending) {
 	f := p.f
 	n := 0
+	// sometimes several glyphs of one sequence lose their text (encoders
+	// that give such glyphs codes of their own number them consecutively)
+	manyEmpty := f.spec.Composite && rng.Chance(1, 6)
 	for i := range p.seq.Seq {
 		g := &p.seq.Seq[i]
-		if !rng.Chance(1, 6) {
+		if !rng.Chance(1, 6) && !(manyEmpty && rng.Bool()) {
 			continue
 		}
 		if f.spec.OneText {
@@ -480,6 +483,10 @@ func (d *c14Doc) retext(rng *kit.Rand, p *c14Pending) {
 			}
 		}
 		g.Text = kit.Pick(rng, c14Retexts)
+		if manyEmpty {
+			g.Text = ""
+			d.c.R.Count("glyphs_without_text_in_runs", 1)
+		}
 		if g.Text == "" && !f.spec.Composite {
 			// "no text" is kept for composite fonts: a simple font without a
 			// ToUnicode entry falls back to the glyph name
@@ -1454,7 +1461,7 @@ func c14ParseToUnicode(body []byte) (map[string]string, []string, error) {
 				if toks[i].kind == 'h' {
 					base := toks[i].hex
 					if len(base) < 2 {
-						return nil, nil, fmt.Errorf("bfrange: short destination")
+						return nil, nil, fmt.Errorf("bfrange <%x> <%x> <%x>: short destination", lo, hi, base)
 					}
 					if int(base[len(base)-1])+n-1 > 255 {
 						overflow = append(overflow, fmt.Sprintf("<%x> <%x> <%x>", lo, hi, base))
